@@ -153,6 +153,10 @@ def run_replay_shard(binp, config, cases, out, shard, nshards, nvecs, timeout=18
             return {"file": out, "nodes": int(n), "nondet": nd, "crashes": crashes, "log": r.stdout[-2000:], "fault_runs": sum(fr)}
         if r.returncode == 3:
             raise ToolError("harness driver error: " + r.stdout[-2000:])
+        if r.returncode == 4 and last == "INIT":
+            # constructing the empty vectors of this configuration panicked: data about the code under test
+            crashes.append({"case": 0, "rc": 4, "out": r.stdout[-500:], "init": True})
+            return {"file": out, "nodes": 0, "nondet": [], "crashes": crashes, "log": "", "fault_runs": 0, "aborted": True}
         # crashed (signal / abort): the last marker names the running case
         if last and not last.startswith("DONE"):
             cid = int(last)
@@ -272,7 +276,7 @@ def random_campaign(binp, config, tag, nvecs, seed, traces, steps, maxlen):
             return {"nodes": steps, "crash": None}
         if r.returncode == 3:
             raise ToolError("harness driver error: " + r.stdout[-1000:])
-        return {"nodes": 0, "crash": {"case": int(last) if last.isdigit() else 0, "rc": r.returncode, "out": r.stdout[-300:], "trace": k}}
+        return {"nodes": 0, "crash": {"case": int(last) if last.isdigit() else 0, "rc": r.returncode, "out": r.stdout[-300:], "trace": k, "init": last == "INIT"}}
     with ThreadPoolExecutor(max_workers=min(8, traces)) as ex:
         reps = list(ex.map(one, range(traces)))
     t1 = time.time()
@@ -292,7 +296,12 @@ def random_campaign(binp, config, tag, nvecs, seed, traces, steps, maxlen):
                             header = header or json.loads(line); continue
                         if not (want or crash_at is not None):
                             break
-                        e = json.loads(line)
+                        try:
+                            e = json.loads(line)
+                        except ValueError:
+                            if crash_at is not None:
+                                break            # the process died while writing this line
+                            raise ToolError("unreadable event line %d in %s" % (i, outs[k]))
                         acts.append(e["act"])
                         if e["id"] in want:
                             key = (k, e["id"])
